@@ -266,8 +266,13 @@ func TestPropSplit(t *testing.T) {
 			"split": func(rt *rapid.T) { m.apply(drawSplitOp(rt)) },
 			"burst": func(rt *rapid.T) {
 				op := drawSplitOp(rt)
-				op.AltText = drawMixedText(rt, 6)
-				op.Burst = drawBurstN(rt, len(op.Text) <= 8)
+				if rapid.IntRange(0, 2).Draw(rt, "doBurst") == 0 {
+					// both inputs of a burst are tiny: the cost of a long history is the number of calls
+					op.Text = drawMixedText(rt, 6)
+					op.RunStart, op.RunEnd = 0, len(op.Text)
+					op.AltText = drawMixedText(rt, 6)
+					op.Burst = drawBurstN(rt, false) // 2^16 Splits (bidi) are not affordable
+				}
 				m.apply(op)
 			},
 			"split_again": func(rt *rapid.T) {
